@@ -159,6 +159,62 @@ func runAPIs(c *mon.Case, i int, sk keyKind) {
 	if i%5 == 0 {
 		unparsed(c, issuer, leaves[0])
 	}
+	mismatchedSigner(c, r, signer, other, issuer, alg, uniq)
+}
+
+// mismatchedSigner: CreateCertificate is handed a parent certificate together with a private key that is NOT the
+// parent's (another key of the same kind under the same algorithm, and a key of another kind under its default
+// algorithm). What the library creates must verify under the issuer key; a key that is not the issuer's cannot
+// produce such a signature, so the outcomes that keep the property are a refusal (what the unchanged library does:
+// "provided PrivateKey doesn't match parent's PublicKey") or a certificate that does verify under the parent. A
+// certificate that parses but does not verify under the parent it names is a violation (mutation sweep: dropping
+// that comparison survived every C15 workload).
+func mismatchedSigner(c *mon.Case, r *mon.Rand, signer, other key, issuer *smx509.Certificate, alg x509.SignatureAlgorithm, uniq string) {
+	type wrongKey struct {
+		k   key
+		alg x509.SignatureAlgorithm
+	}
+	wrong := []wrongKey{{other, alg}}
+	if k2, err := newKey(r, keyKind((int(signer.kind)+1+r.Intn(int(nKinds)-1))%int(nKinds)), 0); err == nil {
+		wrong = append(wrong, wrongKey{k2, 0})
+	}
+	for _, w := range wrong {
+		if w.k.priv == nil || w.k.samePublic(signer.pub) {
+			continue
+		}
+		lk, err := newKey(r, kSM2, 0)
+		if err != nil {
+			continue
+		}
+		t := genCertTemplate(r, false, uniq+"/mismatch")
+		t.SignatureAlgorithm = w.alg
+		var der []byte
+		what := fmt.Sprintf("CreateCertificate(parent of a %v key, private key: another %v key)", signer.kind, w.k.kind)
+		if !c.Call(what, func() { der, err = smx509.CreateCertificate(libR, t, issuer, lk.pub, w.k.priv) }) {
+			continue
+		}
+		if err != nil {
+			c.Event("apis/mismatched_signer_refused", 1)
+			continue
+		}
+		var p *smx509.Certificate
+		if !c.Call("ParseCertificate", func() { p, err = smx509.ParseCertificate(der) }) {
+			continue
+		}
+		if err != nil {
+			c.Event("apis/mismatched_signer_unparsable_result", 1)
+			continue
+		}
+		var verr error
+		if !c.Call("CheckSignatureFrom", func() { verr = p.CheckSignatureFrom(issuer) }) {
+			continue
+		}
+		if verr != nil {
+			c.Fail("accept", "%s returned a certificate naming that parent as issuer whose signature does not verify under the parent's key (%v): the library created a certificate that fails to verify under its issuer", what, verr)
+			continue
+		}
+		c.Event("apis/mismatched_signer_result_verifies", 1)
+	}
 }
 
 // ---- CheckSignatureWithDigest ----
